@@ -21,6 +21,15 @@ def jobs(tier):
     j.strict_reach = False
     if tier == 'thorough':
         J.append(j)
+    from checks import c13
+    for kd in ('ref', 'expr'):
+        lv = Job('link.values.' + kd, c13.H, 'h_link_values_' + kd, defines={'NDEBUG': None, 'VP_LINK_VALUES': None},
+                 ops=c13.OPS + DEU + [('rename_def', 'MIR_interp', 'MIR_interp__real', 'vp_model_interp')], unwind=4, unwindset=['memcpy.0:17'], no_standard_checks=True,
+                 object_bits=10, timeout=600, solver='cadical', kind='bounded', bound='one module with one ref or expr data item',
+                 scope=['vp_on_error', 'vp_ctx_setup', 'item_tab_find', 'HTAB_MIR_item_t_do', 'MIR_interp', 'memcpy', 'run_link_values'])
+        lv.count_funcs = {'MIR_link', '_MIR_type_size'}
+        lv.strict_reach = False
+        J.append(lv)
     return J
 
 
